@@ -80,6 +80,14 @@ static void cell(unsigned arg, unsigned f, pv_rng* rng, const char* hist, uint64
             if (stored != f) pv_violation("C10/create-stores-other-bits", "create(0x%x) stored feature bits %u", carg, stored);
             free(o); pv_api_free(s);
         }
+        /* a request for a feature that is not enabled is refused as unsupported - also when the allocator happens to be failing
+         * (creation has nothing to allocate for a seed it will not make) */
+        if (!sup) {
+            pv_w->fail_countdown = 1; s = NULL; st = pv_api_create(carg, &s); pv_w->fail_countdown = 0; PV_COUNT("evaluations", 1);
+            if (st != POLYSEED_ERR_UNSUPPORTED) pv_violation("C10/create/status-with-failing-allocator", "create(0x%x) under mask %u with the allocator refusing its next request -> %s, expected ERR_UNSUPPORTED", carg, m, pv_status_name(st));
+            else PV_COUNT("cell.create.ERR_UNSUPPORTED(allocator failing)", 1);
+            if (st == POLYSEED_OK) pv_api_free(s);
+        }
     }
     PV_DISTINCT("nontrivial", pv_mix(pv_mix(arg, f), pv_mix(hh, pv_mix(pv_hash_str(L->key), coin))));
     free(in); free(img);
